@@ -337,6 +337,9 @@ func TestResidue(t *testing.T) {
 		Gen: func(t *rapid.T) residueCase {
 			h := mx.History{Chunk: rapid.IntRange(1, 6).Draw(t, "chunk"), Struct: rapid.Bool().Draw(t, "struct"), AutoClear: rapid.Bool().Draw(t, "auto-clear"),
 				AutoClean: rapid.Bool().Draw(t, "auto-clean"), Concurrent: rapid.Bool().Draw(t, "concurrent")}
+			if rapid.IntRange(0, 2).Draw(t, "awkward-names") == 1 {
+				h.Names = rapid.IntRange(1, 4).Draw(t, "names")
+			}
 			n := rapid.IntRange(1, 3).Draw(t, "ncycles")
 			for i := 0; i < n; i++ {
 				c := mx.Cycle{Pull: -1, Clear: true}
@@ -365,6 +368,9 @@ func TestResidue(t *testing.T) {
 			}
 			if c.H.AutoClear {
 				l = append(l, "autoclear")
+			}
+			if c.H.Names != 0 {
+				l = append(l, "file-names-with-pattern-characters")
 			}
 			if c.CleanUp {
 				l = append(l, "cleanup")
